@@ -54,6 +54,7 @@ type Scenario struct {
 	Intensity   int       `json:"yield_intensity_percent"`
 	WTRDelayUS  int       `json:"write_then_read_delay_us"` // reactive.WriteThenReadDelay for this scenario
 	Cells       int       `json:"cells"`
+	PairCells   []int     `json:"fetch_then_register_cells,omitempty"` // cells read as an atomic (version, resource) pair that is registered afterwards; written invalidate-style only
 	RRs         []*RRSpec `json:"rerunners"`
 	Writers     [][]Op    `json:"writers"`
 	WaitFirst   bool      `json:"wait_first_runs"`
@@ -86,7 +87,7 @@ type Options struct {
 }
 
 func (sc *Scenario) Shape() string {
-	s := fmt.Sprintf("cells=%d wf=%v wtr=%v", sc.Cells, sc.WaitFirst, sc.WTRDelayUS > 0)
+	s := fmt.Sprintf("cells=%d pair=%v wf=%v wtr=%v", sc.Cells, sc.PairCells, sc.WaitFirst, sc.WTRDelayUS > 0)
 	for _, r := range sc.RRs {
 		s += fmt.Sprintf(" rr(spawn=%v %s)", r.Spawn, r.Plan.Shape())
 	}
@@ -104,6 +105,8 @@ func (sc *Scenario) Shape() string {
 				s += "r"
 			case "stormwrite":
 				s += "W"
+			case "flush":
+				s += "f"
 			}
 		}
 	}
@@ -132,6 +135,9 @@ func Run(sc *Scenario, opt Options, agg *vlib.HitAgg) *Result {
 	// the world (and its initial resources) is built before the handler is
 	// installed so that visit numbers count from the start of the scenario
 	w := NewWorld(sc.Cells)
+	for _, c := range sc.PairCells {
+		w.Cells[c].Pair = true
+	}
 	y := vlib.NewYielder(sc.YieldSeed, sc.Intensity)
 	for _, spec := range sc.RRs {
 		w.AddRerunner(spec)
@@ -230,6 +236,19 @@ func Run(sc *Scenario, opt Options, agg *vlib.HitAgg) *Result {
 					w.RRs[op.RR].Purge()
 				case "plainread":
 					w.Cells[op.Cell].ReadPlain()
+				case "flush":
+					// US+1 calls of the public RerunImmediately
+					<-w.RRs[op.RR].started
+					for k := 0; k <= op.US; k++ {
+						w.RRs[op.RR].R.RerunImmediately()
+					}
+					w.mu.Lock()
+					w.Stats["rerun_immediately_calls"] += op.US + 1
+					w.mu.Unlock()
+					w.bump()
+				case "spin":
+					for t0 := time.Now(); time.Since(t0) < time.Duration(op.US)*time.Microsecond; {
+					}
 				case "stormwrite":
 					w.Cells[op.Cell].StormWrite(op.RR, time.Duration(op.US)*time.Microsecond, oi)
 				case "sleep":
